@@ -1,7 +1,7 @@
 (* C10 — Verification is deterministic and leaves its inputs untouched.
    Order independence of the model stages (every association list standing for a Go map may be
    permuted); purity itself is carried by the correspondence on histories (checks/c10.py). *)
-From IT Require Import model.Pipeline proofs.PipelineProofs proofs.SubstProofs spec.SubstSpec.
+From IT Require Import model.Pipeline proofs.PipelineProofs proofs.SubstProofs spec.SubstSpec model.PipelineInst.
 
 (* the layout signature stage gives exactly the same result for every order of the verifier's key map *)
 Theorem C10_layout_signatures_order_independent : forall vsig e keys keys',
@@ -27,3 +27,36 @@ Theorem C10_reduce_verdict_order_independent : forall links links',
 Proof. exact reduce_step_perm. Qed.
 Print Assumptions C10_reduce_verdict_order_independent.
 Print Assumptions C10_reduce_order_independent.
+
+(* the whole verification - verdict, summary link, final world and trace - is the same for every order of the
+   verifier's key map and of the parameter map; first for arbitrary components with an order-independent
+   substitution, then for the pipeline with the component models plugged in (substitution = C18's model) *)
+Theorem C10_verify_keys_params_order_independent :
+  forall World vsig expiry_ok subst certs_ok load_all verify_thresholds verify_rules run_insp retval_zero pbytes zero_key
+         fuel w path d layout_env keys keys' step_name params params' inter,
+    Permutation keys keys' -> (forall l, subst l params = subst l params') ->
+    verify World vsig expiry_ok subst certs_ok load_all verify_thresholds verify_rules run_insp retval_zero pbytes zero_key
+           fuel w path d layout_env keys step_name params inter =
+    verify World vsig expiry_ok subst certs_ok load_all verify_thresholds verify_rules run_insp retval_zero pbytes zero_key
+           fuel w path d layout_env keys' step_name params' inter.
+Proof. exact verify_perm_keys_params. Qed.
+Print Assumptions C10_verify_keys_params_order_independent.
+
+Theorem C10_verify_inst_order_independent :
+  forall now truths tc tcc cmds fuel w path d layout_env keys keys' step_name params params' inter,
+    Permutation keys keys' -> NoDup (map fst params) -> Permutation params params' ->
+    verify_inst now truths tc tcc cmds fuel w path d layout_env keys step_name params inter =
+    verify_inst now truths tc tcc cmds fuel w path d layout_env keys' step_name params' inter.
+Proof.
+  intros now truths tc tcc cmds fuel w path d layout_env keys keys' step_name params params' inter Hk Hnd Hp.
+  unfold verify_inst. apply verify_perm_keys_params; [exact Hk|]. intro l. apply substitute_perm; assumption.
+Qed.
+Print Assumptions C10_verify_inst_order_independent.
+
+(* the map handed to the inspection rules (reduced step links merged over the inspection links) is the same
+   map whatever the iteration order of the reduced map *)
+Theorem C10_merge_order_independent : forall reduced reduced' acc n,
+  NoDup (map fst reduced) -> Permutation reduced reduced' ->
+  alookup (merge_steps reduced acc) n = alookup (merge_steps reduced' acc) n.
+Proof. exact merge_steps_perm. Qed.
+Print Assumptions C10_merge_order_independent.
